@@ -563,7 +563,15 @@ func (w *World) StateText() (string, *Walk) {
 	}
 	if w.KeyStorage {
 		// drivers that explore commits/crashes distinguish storage-level states too
-		fmt.Fprintf(&sb, "extra %v pendingDel %d cachedAbsent %d ledger %d\n", extra, nDel, nCacheNil, len(w.Ledger.Regs))
+		// pending deletions of never-committed slabs only make the next commit issue no-op
+		// removals; their number is capped so that the space stays finite
+		if nDel > 2 {
+			nDel = 2
+		}
+		if nCacheNil > 2 {
+			nCacheNil = 2
+		}
+		fmt.Fprintf(&sb, "extra %v pendingDel %d cachedAbsent %d ledger %d committed %s\n", extra, nDel, nCacheNil, len(w.Ledger.Regs), w.committedText())
 	} else {
 		// container drivers: pending deletions of never-committed slabs do not influence any
 		// container operation; counting them would make every history a new state
@@ -586,4 +594,31 @@ func slabIDToValueID(id atree.SlabID) atree.ValueID {
 	id.ToRawBytes(b[:])
 	copy(v[:], b[:])
 	return v
+}
+
+// committedText abstracts the model at the last commit (crash recovery target) for the state key.
+func (w *World) committedText() string {
+	if w.CommittedConts == nil {
+		return "never"
+	}
+	w2 := &World{Conts: w.CommittedConts}
+	order, names := w2.canonOrder()
+	var sb strings.Builder
+	for _, c := range order {
+		fmt.Fprintf(&sb, "c%d", names[c])
+		if c.IsMap {
+			sb.WriteString("{")
+			for i := range c.Keys {
+				fmt.Fprintf(&sb, "%s:%s ", keyText(c.Keys[i]), classOfCanon(c.Vals[i], names))
+			}
+			sb.WriteString("}")
+		} else {
+			sb.WriteString("[")
+			for _, e := range c.Elems {
+				sb.WriteString(classOfCanon(e, names) + " ")
+			}
+			sb.WriteString("]")
+		}
+	}
+	return sb.String()
 }
